@@ -192,7 +192,7 @@ def r1(prog, run, hm):
     run.instance(rid)
     tl = [n for _, n in hm.calls() if hm.cname(n).endswith('::trustLevel')]
     ok = bool(tl) and len(tl[0]['args']) >= 3 and hm.nodes[hm.skip(tl[0]['args'][1])].get('decl') == sender_decl and sender_is_bare_from \
-        and 'QXmppE2eeMetadata::senderKey()' in hm.fmt(tl[0]['args'][2]) and 'QXmppTrustMessageElement::encryption()' in hm.fmt(tl[0]['args'][0])
+        and _key_from_metadata(hm, tl[0]['args'][2]) and 'QXmppTrustMessageElement::encryption()' in hm.fmt(tl[0]['args'][0])
     if ok:
         run.ok(rid, hm.loc(), 'sender = bare(message.from()); trust level looked up for (encryption, sender, e2ee sender key)')
     else:
@@ -473,3 +473,17 @@ def r6(prog, run):
         run.violation(rid, 'makeTrustDecisions#distrust-before-authenticate', di[0][0].loc(di[0][1]),
                       'makeTrustDecisions applies the distrust half before (or beside) the authentication half: the postponed decisions released by the authentications run '
                       'afterwards and can re-authenticate a key the same message distrusts')
+
+
+def _key_from_metadata(f, nid):
+    """the sender key handed to the lookup is the e2ee metadata's sender key, or empty when there is no metadata - whatever the spelling
+    (a ternary, or a local that starts empty and is assigned under the metadata test)"""
+    if 'QXmppE2eeMetadata::senderKey()' in f.fmt(nid):
+        return True
+    n = f.nodes[f.skip(nid)]
+    if n['k'] == 'var' and n.get('vk') == 'local':
+        ds = [d for d in f.all_defs(n.get('decl')) if d is not None]
+        texts = [f.fmt(d) for d in ds]
+        empties = [f.nodes[f.skip(d)]['k'] == 'construct' and not [a for a in f.nodes[f.skip(d)].get('args', []) if f.nodes[a]['k'] != 'defarg'] for d in ds]
+        return bool(ds) and any('QXmppE2eeMetadata::senderKey()' in t for t in texts) and all('QXmppE2eeMetadata::senderKey()' in t or e for t, e in zip(texts, empties))
+    return False
